@@ -239,6 +239,7 @@ def run(facts, rep, thorough=False):
                 else:
                     rep.unresolved("R-IOERR(c)", key, "consumption not modelled: " + how, facts.loc(p, n))
     rep.floor("R-IOERR(c)", "io::Result-valued call sites", n_io_values, 175)
+    run_buffered(facts, rep, tree_fns)
     # (d) inventory
     des = [p for p in api if facts.items[p]["name"].startswith("deserialize")]
     dtree = facts.reachable(des)
@@ -263,3 +264,59 @@ def run(facts, rep, thorough=False):
     rep.ok("R-IOERR(d)", "inventory", "deserialize tree: %d functions, panic-capable sites by kind %s; none sits on "
            "an Err path because (b),(c) hold" % (len(dtree), inv), nontrivial=False)
     return {"api": len(api), "tree": len(tree_fns)}
+
+
+BUFFERED = ("std::io::BufWriter", "std::io::LineWriter", "std::io::buffered::bufwriter", "std::io::buffered::linewriter")
+
+
+def run_buffered(facts, rep, tree_fns):
+    """(e) a buffering writer created inside the serialization tree must be flushed (flush()/into_inner(), whose
+    io::Result is then subject to rule (c)) on every normally-returning path: its Drop flushes too, but discards the
+    error, so a sink that fails after the function returned `Ok` has silently lost the tail of the encoding."""
+    from flow import Flow
+    from facts import root_local
+    rep.rule("R-IOERR(e)", "a BufWriter/LineWriter created in the serialization tree is flushed explicitly on every "
+             "normally-returning path (Drop discards the flush error)")
+    n = 0
+    for p in sorted(tree_fns):
+        body = facts.hir.get(p)
+        if body is None:
+            continue
+        creates = [x for x in walk(body) if x.get("k") == "Call" and (callee(x) or {}).get("def", "").startswith(BUFFERED)
+                   and (callee(x) or {}).get("name") in ("new", "with_capacity")]
+        if not creates:
+            continue
+        n += len(creates)
+        cids = {id(c) for c in creates}
+
+        def transfer(nd, st):
+            k = nd.get("k")
+            if k == "Let" and "init" in nd and nd["pat"].get("k") == "PBind":
+                if any(id(y) in cids for y in walk(nd["init"])):
+                    return st | frozenset([nd["pat"]["lid"]])
+            if k == "MCall" and nd.get("name") in ("flush", "into_inner", "into_parts"):
+                rl = root_local(nd["recv"])
+                if rl and rl[0] in st:
+                    return st - frozenset([rl[0]])
+            return st
+
+        fl = Flow(facts, lambda a, b: a | b, transfer, closure_mode="skip")
+        fl.run(body, frozenset())
+        leaked = set()
+        for st, node in fl.rets:
+            leaked |= set(st)
+        key = "%s/bufwriter" % p
+        if leaked:
+            rep.violation("R-IOERR(e)", key,
+                          "%s wraps the stream in a buffering writer and can return normally without flushing it: the "
+                          "buffered tail is written by Drop, which discards the io::Error — a sink that fails then "
+                          "receives a truncated encoding while the caller is told Ok(n)" % p, facts.loc(p, creates[0]))
+        else:
+            rep.ok("R-IOERR(e)", key, "buffering writer is flushed on every normally-returning path", facts.loc(p, creates[0]))
+        # temporaries: BufWriter::new(..) not bound to a local at all
+        for c in creates:
+            bound = any(x.get("k") == "Let" and any(y is c for y in walk(x.get("init", {}))) for x in walk(body))
+            if not bound:
+                rep.violation("R-IOERR(e)", key + "/temporary", "a buffering writer is created as a temporary and dropped "
+                              "without an explicit flush", facts.loc(p, c))
+    rep.ok("R-IOERR(e)", "inventory", "%d buffering writer(s) created in the serialization tree" % n, nontrivial=False)
